@@ -63,7 +63,7 @@ pub fn engines() -> Vec<EngineDef> {
             worker: multibuild::worker,
             replay: multibuild::replay,
             shrink: multibuild::shrink,
-            budget: |tier| if tier == "thorough" { (600_000, 1500.0, 2000) } else { (9_600, 150.0, 64) },
+            budget: |tier| if tier == "thorough" { (600_000, 1500.0, 2000) } else { (16_000, 150.0, 64) },
             rule: multibuild::RULE,
             assumptions: multibuild::ASSUMPTIONS,
             real: &["avra_lib (all of it) called from 1-4 real OS threads", "the process-global DEVICES table, thread-locals and statics of the tree as they are", "Rust std", "kernel tmpfs"],
@@ -76,7 +76,7 @@ pub fn engines() -> Vec<EngineDef> {
             worker: cli::worker,
             replay: cli::replay,
             shrink: cli::shrink,
-            budget: |tier| if tier == "thorough" { (200_000, 1500.0, 1000) } else { (4_000, 150.0, 64) },
+            budget: |tier| if tier == "thorough" { (200_000, 1500.0, 1000) } else { (8_000, 150.0, 64) },
             rule: cli::RULE,
             assumptions: cli::ASSUMPTIONS,
             real: &["the avra-rs binary built from the tree with the guard off (cargo build of the real package, build.rs included)", "avra_lib in-process for the reference build", "kernel: process spawn, tmpfs, RLIMIT_FSIZE, /dev/full"],
